@@ -149,6 +149,7 @@ type unaryRpcArgs struct {
 type streamHandler struct {
 	ch     chan *goatorepo.Rpc
 	done   chan struct{}
+	ctx    context.Context
 	cancel context.CancelFunc
 }
 
@@ -429,6 +430,10 @@ func (h *handler) processStreamingRpc(
 		} else {
 			select {
 			case handler.ch <- rpc:
+			case <-handler.ctx.Done():
+				// The stream's handler has returned (or its context has ended): nobody
+				// will consume this message. Don't wait for it while holding the lock
+				// that unregistering the stream needs.
 			case <-clientCtx.Done():
 				return clientCtx.Err()
 			case <-h.ctx.Done():
@@ -469,6 +474,7 @@ func (h *handler) processStreamingRpc(
 	h.streams[streamId] = streamHandler{
 		ch:     make(chan *goatorepo.Rpc, 1),
 		done:   make(chan struct{}, 1),
+		ctx:    ctx,
 		cancel: cancel,
 	}
 
